@@ -606,6 +606,29 @@ func genCodecSrc(repo string) (string, error) {
 		sw["dispatch_continues_after_reply"] = v
 	}
 
+	// 11. dubbo-thrift matcher: first byte of the length prefix must be zero (exclusive with the other matchers)
+	{
+		fset, f, err := ParseGoFile(repo, "pkg/protocol/xprotocol/dubbothrift/matcher.go")
+		if err != nil {
+			return "", err
+		}
+		v := false
+		if fd := FindFunc(f, "", "thriftMatcher"); fd != nil {
+			b := src(fset, fd.Body)
+			switch b {
+			case "{ if len(data) < MessageLenSize+MagicLen { return api.MatchAgain } if data[0] != 0 { return api.MatchFailed } if bytes.Compare(data[MessageLenSize:MessageLenSize+MagicLen], MagicTag) != 0 { return api.MatchFailed } return api.MatchSuccess }":
+				v = true
+			case "{ if len(data) < MessageLenSize+MagicLen { return api.MatchAgain } if bytes.Compare(data[MessageLenSize:MessageLenSize+MagicLen], MagicTag) != 0 { return api.MatchFailed } return api.MatchSuccess }":
+				v = false
+			default:
+				unknown("dubbothrift thriftMatcher", b)
+			}
+		} else {
+			unknown("dubbothrift", "thriftMatcher missing")
+		}
+		sw["thrift_match_first_zero"] = v
+	}
+
 	names := make([]string, 0, len(sw))
 	for k := range sw {
 		names = append(names, k)
